@@ -24,8 +24,10 @@ from harness.lib import coqbuild, protocol as P, sched as S
 
 LEVEL = "proof"
 THEOREMS = ["C04_no_damage", "C04_unreachable", "C04_liveness", "C04_delete_only_unflipped", "C04_pre_or_post",
-            "C04_handlers_keep_after_possible_flip"]
-REQ = ["DS.Model.Commit", "DS.Model.Fault"]
+            "C04_handlers_keep_after_possible_flip",
+            "C04_post_flip_no_damage", "C04_post_flip_unreachable", "C04_post_flip_liveness", "C04_tail_regenerated_safe",
+            "C04_commit_tail_no_damage", "C04_unguarded_tail_damages"]
+REQ = ["DS.Model.CommitBase", "DS.Model.TailBase", "DS.Gen.GenCommit", "DS.Gen.GenTail", "DS.Model.Commit", "DS.Model.Fault", "DS.Model.Tail"]
 MANIFEST_ENTRY = {
     "level_text": "C04_no_damage and companions proved in Coq by an inductive invariant over every sequence of protocol steps, "
                   "file writes, exceptions / asynchronous interrupts at any step boundary, crashes and rollbacks of any number of "
@@ -295,6 +297,7 @@ def project_fault(res: P.CaseResult, cas: bool) -> Tuple[List[str], List[str]]:
     rolled = False
     flipped_now = False
     done = False
+    escaped_tail = False
 
     def close_validate(ok: bool) -> None:
         nonlocal pend_validate
@@ -352,7 +355,11 @@ def project_fault(res: P.CaseResult, cas: bool) -> Tuple[List[str], List[str]]:
             elif (op == "DataW" or (op == "write_file" and pcs in ("manifest", "mlist"))) and (result == "ok" or after_effect):
                 evs.append("FWrite 0%nat")
             elif op == "delete_file" and pcs in ("data", "manifest", "mlist") and "Transaction._rollback" in phase:
-                if not rolled:
+                if escaped_tail:
+                    # what the handler that caught the escaping exception did: the model's TEscape predicts it (compared below)
+                    if "rollback-delete-after-escape" not in notes:
+                        notes.append("rollback-delete-after-escape")
+                elif not rolled:
                     rolled = True
                     evs.append("FRollback 0%nat")
             elif op == "delete_file" and pcs in ("data", "manifest", "mlist", "meta") and not (
@@ -363,9 +370,10 @@ def project_fault(res: P.CaseResult, cas: bool) -> Tuple[List[str], List[str]]:
         # does an exception escape the commit here?
         raised_here = (fault is not None) and (fault == "before" or after_effect)
         if raised_here and not aborted:
-            if swallowed_zone and fault_is_exception(e):
+            is_flip_call = op in ("write_file", "write_file_cas") and pcs == "hint" and in_mm_commit
+            if swallowed_zone and fault_is_exception(e) and not _reached_caller(res, e, idx):
                 notes.append(f"swallowed@{idx}")
-            elif op in ("write_file", "write_file_cas") and pcs == "hint" and isinstance(result, tuple) and result[1] == "CASConflictError":
+            elif is_flip_call and isinstance(result, tuple) and result[1] == "CASConflictError":
                 pass
             else:
                 if pend_validate is not None:
@@ -373,8 +381,13 @@ def project_fault(res: P.CaseResult, cas: bool) -> Tuple[List[str], List[str]]:
                     del evs[pend_validate]
                     pend_validate = None
                 aborted = True
-                if done:
-                    notes.append(f"interrupt-after-protocol@{idx}")   # the protocol had completed (PDone Success): bookkeeping only
+                if flipped_now and not is_flip_call:
+                    # the exception leaves the TAIL of the call (Model/Tail.v): whichever arm of Transaction.commit the handler
+                    # table names runs, with no test of the protocol state
+                    escaped_tail = True
+                    cls = "XOther" if fault_is_exception(e) else "XInterrupt"
+                    evs.append(f"TEscape 0%nat {cls} false")
+                    notes.append(f"tail-escape@{idx}")
                 else:
                     evs.append("FProto (ev 0%nat EAbort)")
     if pend_validate is not None:
@@ -382,9 +395,27 @@ def project_fault(res: P.CaseResult, cas: bool) -> Tuple[List[str], List[str]]:
     return evs, notes
 
 
+def _reached_caller(res: P.CaseResult, e: dict, idx: int) -> bool:
+    """Did the exception injected at this call come out of the commit call?  (It is the last fault of the run and the call's
+    outcome is an exception of the injected type.)  Observed, not assumed from the name of the function it was raised in."""
+    st, detail = res.outcomes["A0"]
+    if st != "raised" or any(x.get("fault") for x in res.log[idx + 1:]):
+        return False
+    r = e.get("result")
+    return isinstance(r, tuple) and detail.startswith(str(r[1]))
+
+
 def fault_is_exception(e: dict) -> bool:
     r = e.get("result")
     return isinstance(r, tuple) and r[1] not in ("KeyboardInterrupt", "SystemExit")
+
+
+TAIL_OF = {"append": "gen_tail_file_ops", "expire": "gen_tail_meta_only", "delete_snapshot": "gen_tail_delete_snapshot",
+           "delete_current": "gen_tail_delete_snapshot"}
+
+
+def handlers_of(opkind: str) -> str:
+    return "no_handlers" if opkind in ("delete_snapshot", "delete_current") else "gen_tx_on"
 
 
 def model_expr(res: P.CaseResult, opkind: str, backend: str, evs: List[str]) -> str:
@@ -392,11 +423,53 @@ def model_expr(res: P.CaseResult, opkind: str, backend: str, evs: List[str]) -> 
     kind, mr = kind_of(op_for(opkind))
     lu0 = res.initial["meta"]["last_updated_ms"]
     cfgs = "{| cas := %s; lockkind := %s |}" % ("true" if backend == "s3cas" else "false", "Excl" if backend == "local" else "GrantAll")
+    tevs = [e if e.startswith("TEscape") else f"TF ({e})" for e in evs]
     return (f"let ev := fun a k => {{| e_actor := a; e_kind := k |}} in "
-            f"match frun_strict {cfgs} (finit {{| m_ops := []; m_cur := 1; m_lu := {lu0} |}} (fun _ => {kind}) (fun _ => {mr}%nat) [0%nat; 1%nat] 2%nat) "
-            f"[{'; '.join(evs)}] 0%nat with "
+            f"match trun_strict {TAIL_OF[opkind]} {handlers_of(opkind)} {cfgs} (finit {{| m_ops := []; m_cur := 1; m_lu := {lu0} |}} (fun _ => {kind}) (fun _ => {mr}%nat) [0%nat; 1%nat] 2%nat) "
+            f"[{'; '.join(tevs)}] 0%nat with "
             f"| inl x => (1, (outcome_code (a_pc (w_actors (fw x) 0%nat)), Z.of_nat (List.length (w_hist (fw x))), all_present x)) "
             f"| inr i => (0, (Z.of_nat i, 0, false)) end")
+
+
+# ------------------------------------------------------------------------------------------------ the tail as observed
+KIND_OF_OP = {"LockRel": "TKRelease", "LockTry": "TKLock", "Fence": "TKLock", "LockFlock": "TKLock", "delete_file": "TKDelete",
+              "exists": "TKExists", "read_file": "TKRead", "read_file_with_etag": "TKRead", "open_file": "TKRead",
+              "open_seekable": "TKRead", "get_size": "TKRead", "get_modified_time": "TKRead", "DataR": "TKRead",
+              "write_file": "TKWrite", "write_file_cas": "TKWrite", "DataW": "TKWrite", "list_files": "TKList"}
+
+
+def observed_tail(res: P.CaseResult) -> Optional[Tuple[List[str], bool, List[Tuple[str, bool]]]]:
+    """The storage / lock calls the commit call issued AFTER its pointer write landed, as tail kinds, up to the point where
+    an exception left the call (complete = none did); plus, per Exception injected at one of them, (kind, did it escape).
+    None: the pointer write did not land in this run."""
+    flip_at = next((i for i, e in enumerate(res.log) if e["op"] in ("write_file", "write_file_cas") and P.path_class(e["path"]) == "hint"
+                    and "MetadataManager.commit" in e["phase"] and e.get("performed") is not False
+                    and (e["result"] == "ok" or (isinstance(e["result"], tuple) and e["result"][0] == "raised-after-effect"))), None)
+    if flip_at is None:
+        return None
+    fe = res.log[flip_at]
+    if isinstance(fe["result"], tuple):
+        return None                 # the commit-point write itself raised (ambiguous): the call does not continue into its tail
+    kinds: List[str] = []
+    faults: List[Tuple[str, bool]] = []
+    complete = True
+    for idx in range(flip_at + 1, len(res.log)):
+        e = res.log[idx]
+        if e["op"] == "Sleep":
+            continue
+        k = KIND_OF_OP.get(e["op"], "TKOther")
+        kinds.append(k)
+        after_effect = isinstance(e["result"], tuple) and e["result"] and e["result"][0] == "raised-after-effect"
+        if e.get("fault") is not None and (e["fault"] == "before" or after_effect):
+            if not fault_is_exception(e):
+                complete = False        # KeyboardInterrupt / SystemExit: nothing swallows it
+                break
+            esc = _reached_caller(res, e, idx)
+            faults.append((k, esc))
+            if esc:
+                complete = False
+                break
+    return kinds, complete, faults
 
 
 # ------------------------------------------------------------------------------------------------ driver
@@ -407,7 +480,7 @@ def run(ctx) -> None:
                 "(backend, op, style, k, kind)")
     ctx.trusted_base += ["harness/lib/sched.py fault directives, protocol.py, mems3.py; harness/props/c04.py projection"]
     ctx.assumptions += ["storage failures are injected as OSError and as a non-OSError (botocore ClientError); KeyboardInterrupt/SystemExit for every BaseException"]
-    ctx.proofs(THEOREMS, gen_files=["GenCommit.v"])
+    ctx.proofs(THEOREMS, gen_files=["GenCommit.v", "GenTail.v"])
     ctx.allow_axioms([])
     quick = ctx.tier == "quick"
     combos = []
@@ -426,6 +499,7 @@ def run(ctx) -> None:
                 combos += [(backend, "append", "with", config), (backend, "append", "explicit", config),
                            (backend, "expire", "with", config), (backend, "delete_snapshot", "with", config)]
     exprs, meta_runs, bad = [], [], []
+    tail_obs: List[Tuple[Dict[str, Any], str, Tuple[List[str], bool, List[Tuple[str, bool]]]]] = []
     total = 0
     reuse_runs = [0]
     for backend, opkind, style, config in combos:
@@ -440,6 +514,9 @@ def run(ctx) -> None:
                           f"{clean.final.get('error') or clean.final.get('missing')}",
                           {"backend": backend, "op": opkind, "style": style, "config": config, "k": -1, "k2": None, "fault": "none"})
             continue
+        ot0 = observed_tail(clean)
+        if ot0 is not None and style != "reuse":
+            tail_obs.append(({"backend": backend, "op": opkind, "style": style, "config": config, "k": -1, "fault": "none"}, opkind, ot0))
         kinds = FAULT_KINDS if backend != "local" else ["exc-before", "kbi", "sysexit", "other-before"]
         if quick:
             kinds = [k for k in kinds if k != "sysexit"]
@@ -485,14 +562,17 @@ def run(ctx) -> None:
             if style == "reuse":
                 reuse_runs[0] += 1
                 continue        # the second transaction on the reused object is outside the one-commit model: oracle only
+            ot = observed_tail(res)
+            if ot is not None:
+                tail_obs.append(({"backend": backend, "op": opkind, "style": style, "config": config, "k": k, "fault": fk, "sticky": sticky}, opkind, ot))
             try:
-                evs, _notes = project_fault(res, backend == "s3cas")
+                evs, notes = project_fault(res, backend == "s3cas")
             except P.Nonconforming as e:
                 bad.append({"backend": backend, "op": opkind, "style": style, "config": config, "k": k, "fault": fk, "sticky": sticky,
                             "nonconforming": str(e)})
                 continue
             exprs.append(model_expr(res, opkind, backend, evs))
-            meta_runs.append((backend, opkind, style, k, k2, fk, res, evs, post))
+            meta_runs.append((backend, opkind, style, k, k2, fk, res, evs, post, config, notes))
     ctx.stats["table_histories"] = sorted({c for _b, _o, _s, c in combos})
     # local backend: the n-th fsync of the commit fails (files before their rename, directories after it)
     for opkind, style in ([("append", "with"), ("append", "explicit")] if quick else [("append", "with"), ("append", "explicit"), ("expire", "with"), ("delete_snapshot", "with")]):
@@ -519,23 +599,56 @@ def run(ctx) -> None:
     except RuntimeError as e:
         ctx.proof_problems.append("model evaluation failed: " + str(e)[:800])
         vals = []
-    for (backend, opkind, style, k, k2, fk, res, evs, post), val in zip(meta_runs, vals):
+    for (backend, opkind, style, k, k2, fk, res, evs, post, config, notes), val in zip(meta_runs, vals):
         ok, (code, nflips, present) = val
         st, detail = res.outcomes["A0"]
+        where = {"backend": backend, "op": opkind, "style": style, "config": config, "k": k, "k2": k2, "fault": fk, "outcome": [st, detail]}
         if ok != 1:
-            bad.append({"backend": backend, "op": opkind, "style": style, "k": k, "k2": k2, "fault": fk, "outcome": [st, detail],
-                        "rejected_event_index": code, "events": evs[max(0, code - 4):code + 1]})
+            bad.append(dict(where, rejected_event_index=code, events=evs[max(0, code - 4):code + 1]))
             continue
         impl_post = "error" not in res.final and sig(res.final) == post and detail != "noop"
         impl_code = 1 if st == "ok" else (5 if impl_post else (2 if "ConcurrentModification" in detail else 4))
         if code == 1 and impl_code == 5:
-            impl_code = 1        # interrupted in post-commit bookkeeping: the protocol itself had completed successfully
+            impl_code = 1        # the call raised in post-commit bookkeeping: the protocol itself had completed successfully
         if (nflips == 1) != impl_post or not present or (code in (1, 4, 5) and code != impl_code):
-            bad.append({"backend": backend, "op": opkind, "style": style, "k": k, "k2": k2, "fault": fk, "outcome": [st, detail],
-                        "model": {"code": code, "flips": nflips, "all_present": present}, "impl": {"post": impl_post, "code": impl_code}})
+            bad.append(dict(where, model={"code": code, "flips": nflips, "all_present": present}, impl={"post": impl_post, "code": impl_code}))
+        elif "rollback-delete-after-escape" in notes:
+            # the model (regenerated tail + handler table) says the arm that handled the escaping exception keeps the files
+            bad.append(dict(where, model="the handler of the exception that left the tail keeps the transaction's files",
+                            impl="files were deleted by Transaction._rollback after the exception left the tail"))
     ctx.correspondence("fault-trace", total - reuse_runs[0], bad)
+    # ---- the calls a real commit issues after its flip are a word of the regenerated tail; an Exception injected at one of
+    # them reaches the caller only if the tail has an unguarded call of that kind
+    tkeys: Dict[Tuple[Any, ...], str] = {}
+    for _w, opkind, (kinds_, complete, faults) in tail_obs:
+        tl = TAIL_OF[opkind]
+        tkeys.setdefault(("word", tl, tuple(kinds_), complete),
+                         f"{'tail_accepts' if complete else 'tail_accepts_prefix'} {tl} [{'; '.join(kinds_)}]")
+        for k_, esc in faults:
+            tkeys.setdefault(("call", tl, k_, esc), f"has_call {k_} {'false' if esc else 'true'} {tl}")
+    tkl = list(tkeys)
+    try:
+        tvals = coqbuild.coq_eval(REQ, [tkeys[k_] for k_ in tkl], chunk=80) if tkl else []
+    except RuntimeError as e:
+        ctx.proof_problems.append("model evaluation (tail) failed: " + str(e)[:800])
+        tvals = []
+    verdict = dict(zip(tkl, tvals))
+    tbad = []
+    for w, opkind, (kinds_, complete, faults) in tail_obs:
+        tl = TAIL_OF[opkind]
+        if verdict and verdict.get(("word", tl, tuple(kinds_), complete)) is not True:
+            tbad.append(dict(w, tail=tl, observed_after_flip=kinds_, complete=complete,
+                             why="the calls issued after the pointer write are not a word of the regenerated tail"))
+            continue
+        for k_, esc in faults:
+            if verdict and verdict.get(("call", tl, k_, esc)) is not True:
+                tbad.append(dict(w, tail=tl, call=k_, escaped=esc,
+                                 why=("an Exception injected at this call reached the caller, but the regenerated tail has no unguarded call of this kind"
+                                      if esc else "an Exception injected at this call was swallowed, but the regenerated tail has no guarded call of this kind")))
+    ctx.correspondence("post-flip-tail", len(tail_obs), tbad if verdict or not tail_obs else [{"why": "no verdicts"}])
+    ctx.stats["post_flip_tail_words"] = len([k_ for k_ in tkl if k_[0] == "word"])
     if meta_runs:
-        b, o, s_, k, k2, fk, res, evs, _p = meta_runs[len(meta_runs) // 2]
+        b, o, s_, k, k2, fk, res, evs, _p, _c, _n = meta_runs[len(meta_runs) // 2]
         ctx.sample({"backend": b, "op": o, "style": s_, "k": k, "fault": fk, "outcome": res.outcomes["A0"], "model_events": evs})
 
 
